@@ -42,8 +42,12 @@ class Model(object):
         return self.new('AssignedName', ident, loc, loc, None)
 
     def scope(self, kind, parent, top=None):
+        """A scope object initialised by supp's own Scope.__init__ (interpreted)."""
         o = Obj(self.cls(kind), {}, kind)
-        o.attrs.update({'parent': parent, 'top': top or o, 'locals': set(), 'globals': set()})
+        init = self.cls('Scope').methods.get('__init__')
+        if init is None:
+            raise AnalysisError('Scope.__init__ vanished')
+        self.it.call(FuncVal(init.rel, init.node, None, o, init.cls), [parent, top or o], {})
         if kind == 'SourceScope':
             o.attrs['_global_names'] = {}
         return o
@@ -362,4 +366,63 @@ def check_scopes(repo, res, rule_entry, rule_methods):
                 sorted(in_mod or []), is_local)
     _guard(global_route, res, rule_methods, 'global-declared binding goes to the module', SCOPE,
            'Flow.add_name must route global-declared names to the module table')
-    res.count(rule_entry + '_scenarios', 6, floor=6)
+    def nested_class_skips_outer_body():
+        top, tf, gx, gy = build()
+        a = m.scope('ClassScope', top, top)
+        af = m.flow('class', a)
+        a.attrs['flow'] = af
+        ax = m.name('x', (5, 4))
+        m.add(af, ax)
+        b = m.scope('ClassScope', a, top)
+        bf = m.flow('class', b)
+        b.attrs['flow'] = bf
+        meth = m.scope('FuncScope', b, top)
+        mf = m.flow('func', meth)
+        meth.attrs['flow'] = mf
+        x = m.describe(m.lookup(m.names_at(mf, (9, 12)), 'x'))
+        return x == frozenset([gx.oid]), \
+            'method of a class nested in a class: x (bound in the outer class body and globally) resolves to %s, must be the ' \
+            'global %s' % (sorted(x or []), gx.oid)
+    _guard(nested_class_skips_outer_body, res, rule_methods, 'methods of a nested class skip every enclosing class body', SCOPE,
+           'ClassScope.names must delegate to the names its parent *exposes to nested scopes* (parent.names), not to the '
+           'parent\'s own region table')
+
+    def method_sees_global_declared_binding():
+        top, tf, gx, gy = build()
+        fs = m.scope('FuncScope', top, top)
+        ff = m.flow('func', fs)
+        fs.attrs['flow'] = ff
+        fs.attrs['globals'].add('g')
+        gname = m.name('g', (5, 4))
+        m.add(ff, gname)
+        cs = m.scope('ClassScope', top, top)
+        cf = m.flow('class', cs)
+        cs.attrs['flow'] = cf
+        meth = m.scope('FuncScope', cs, top)
+        mf = m.flow('func', meth)
+        meth.attrs['flow'] = mf
+        g = m.describe(m.lookup(m.names_at(mf, (12, 8)), 'g'))
+        return g == frozenset([gname.oid]), \
+            'a name bound only under `global g` in some function, read in a method: %s' % sorted(g or [])
+    _guard(method_sees_global_declared_binding, res, rule_methods, 'methods see module names created under a global declaration',
+           SCOPE, 'names assigned under `global` belong to the module and are visible through the scope chain')
+
+    def global_does_not_leak():
+        top, tf, gx, gy = build()
+        outer = m.scope('FuncScope', top, top)
+        of = m.flow('func', outer)
+        outer.attrs['flow'] = of
+        outer.attrs['globals'].add('g')
+        inner = m.scope('FuncScope', outer, top)
+        inf = m.flow('func', inner)
+        inner.attrs['flow'] = inf
+        own = m.name('g', (7, 8))
+        m.add(inf, own)
+        e = m.describe(m.lookup(m.names_at(inf, (8, 8)), 'g'))
+        is_local = 'g' in inner.attrs['locals']
+        return e == frozenset([own.oid]) and is_local, \
+            'nested function binding g under an outer `global g`: read resolves to %s, g local to the nested function: %s' % (
+                sorted(e or []), is_local)
+    _guard(global_does_not_leak, res, rule_methods, 'a global declaration does not extend into nested scopes', SCOPE,
+           'a `global` declaration affects only the scope that contains it; a nested function binding the name has its own local')
+    res.count(rule_entry + '_scenarios', 9, floor=9)
